@@ -226,7 +226,7 @@ class Check:
         """sig: dict describing the failing case; a known finding matches when all of its signature
         items are equal to the case's."""
         for k in self.known:
-            if all(sig.get(a) == b for a, b in k['signature'].items()):
+            if all((sig.get(a) in b) if isinstance(b, list) else (sig.get(a) == b) for a, b in k['signature'].items()):
                 return k
         return None
 
